@@ -1335,7 +1335,21 @@ fn enc_cases(tier: Tier) -> Vec<EncCase> {
 
 pub fn run(tier: Tier) -> Report {
     let mut rep = Report::new("C11");
-    let dc = dec_cases(tier);
+    let t0 = std::time::Instant::now();
+    let lap = |what: &str| {
+        if std::env::var("MC_TIMING").is_ok() {
+            eprintln!("[timing] C11 {what} at {:.1}s", t0.elapsed().as_secs_f64());
+        }
+    };
+    // In the checked build (debug assertions, overflow checks) only the geometry part runs, on the
+    // small sizes: there the question is whether a conversion that works in the optimised build
+    // panics - a `debug_assert!` about strides that is false for some padding, an index overflow -
+    // and every such failure is a `conversion-failed` violation of the same relations.
+    let checked = cfg!(debug_assertions);
+    let small = |w: usize, h: usize| w <= 16 && h <= 16 || matches!((w, h), (65, 3) | (128, 2) | (2, 128));
+    let mut dc: Vec<DecCase> = if checked { dec_cases(tier).into_iter().filter(|c| small(c.w, c.h) && c.mode == 0).collect() } else { dec_cases(tier) };
+    // largest frames first: the chunks are handed out in order, and a multi-megapixel case that starts last would be the tail
+    dc.sort_by_key(|c| std::cmp::Reverse(c.w * c.h));
     let acc = par_chunks(dc.len() as u64, 8, |acc, lo, hi| {
         // every chunk runs on a fresh thread, so that the calls that preceded a case on its thread
         // are exactly the earlier cases of its chunk (a replayable history)
@@ -1388,7 +1402,34 @@ pub fn run(tier: Tier) -> Report {
         }
     });
     rep.acc.merge(acc);
+    lap("decode cases done");
     let base = dc.len() as u64;
+    if checked {
+        let ec: Vec<EncCase> = enc_cases(tier).into_iter().filter(|c| small(c.w, c.h)).collect();
+        let acc = par_chunks(ec.len() as u64, 8, |acc, lo, hi| {
+            for i in lo..hi {
+                let c = &ec[i as usize];
+                if c.wide {
+                    check_encode::<u16>(acc, base + i, c)
+                } else {
+                    check_encode::<u8>(acc, base + i, c)
+                }
+            }
+        });
+        rep.acc.merge(acc);
+        let mut acc = Acc::default();
+        for (w, h) in [(1usize, 1usize), (3, 2), (16, 16), (65, 3)] {
+            for op in FOPS {
+                check_float(&mut acc, base, w, h, op);
+            }
+        }
+        rep.acc.merge(acc);
+        rep.bound = format!("checked build: the geometry relations on sizes up to 16x16 (plus 65x3, 128x2, 2x128): {} YUV sources x every padding of the menu, {} encodes, 32 float conversions", dc.len(), ec.len());
+        rep.rule = "as in the optimised build; a panic is a conversion-failed violation".into();
+        rep.guard_bucket("decode to Rgb: pointwise, repeatable, layout-independent, source untouched");
+        rep.guard_bucket("encode: luma = 4:4:4 luma, chroma from own block, plane sizes right, repeatable");
+        return rep;
+    }
     let mut fc = vec![];
     for (w, h) in size_pairs(tier) {
         {
@@ -1407,6 +1448,7 @@ pub fn run(tier: Tier) -> Report {
         }
     });
     rep.acc.merge(acc);
+    lap("float cases done");
     {
         let mut acc = Acc::default();
         check_provenance(&mut acc, base);
@@ -1416,13 +1458,15 @@ pub fn run(tier: Tier) -> Report {
         // every pixel count 1..=SWEEP_END for every float conversion, in chunks of 128 lengths
         let per = (SWEEP_END as u64 + 127) / 128;
         let acc = par_chunks(FOPS.len() as u64 * per, 1, |acc, lo, _| {
-            let (op, c) = (FOPS[(lo / per) as usize], (lo % per) as usize);
+            // longest images first
+            let (op, c) = (FOPS[(lo % FOPS.len() as u64) as usize], (per - 1 - lo / FOPS.len() as u64) as usize);
             float_length_sweep(acc, base + lo, op, 1 + c * 128, (1 + (c + 1) * 128).min(SWEEP_END + 1));
         });
         rep.acc.merge(acc);
     }
     let base = base + fc.len() as u64;
-    let ec = enc_cases(tier);
+    let mut ec = enc_cases(tier);
+    ec.sort_by_key(|c| std::cmp::Reverse(c.w * c.h));
     let acc = par_chunks(ec.len() as u64, 8, |acc, lo, hi| {
         for i in lo..hi {
             let c = &ec[i as usize];
@@ -1434,9 +1478,13 @@ pub fn run(tier: Tier) -> Report {
         }
     });
     rep.acc.merge(acc);
+    lap("sweeps and encodes done");
     check_histories(&mut rep, tier, base + ec.len() as u64);
+    lap("thread histories done");
     check_histories_process(&mut rep, tier, base + ec.len() as u64 + 1);
+    lap("process histories done");
     check_concurrent(&mut rep, tier, base + ec.len() as u64 + 2);
+    lap("two-thread observer done");
     rep.guard_bucket("histories [a,b] and [a,b,a]: every result equals the fresh-thread result");
     rep.guard_bucket("large frames: histories [a,b] and [a,b,a]: every result equals the fresh-thread result");
     rep.bound = format!(
